@@ -6,6 +6,7 @@ import (
 	"encoding/json"
 	"fmt"
 	"hash/fnv"
+	"io"
 	"os"
 	"sort"
 	"strings"
@@ -42,6 +43,7 @@ type goxScenario struct {
 	CPU      int               `json:"cpu"`
 	Thorough bool              `json:"-"`
 	FreeRows int               `json:"free_rows,omitempty"`   // C13: the free-running runs use t.csv with this many rows (real threads need work to overlap)
+	Stdin    string            `json:"stdin,omitempty"`       // the standard input of the process image
 	Loop     bool              `json:"loop_points,omitempty"` // quick tier: every loop iteration in lib/query is a scheduling point too (thorough: all scenarios)
 }
 
@@ -96,6 +98,11 @@ func goxScenarios() []goxScenario {
 		// they are evaluated decides the order of the result rows
 		{Name: "analytic-functions-in-one-expression", Files: files,
 			SQL: "SELECT a, RANK() OVER (ORDER BY b) * 100 + RANK() OVER (ORDER BY g) * 10 + RANK() OVER (ORDER BY a DESC) FROM t; SELECT a FROM t WHERE a IN (1, 2, 3) ORDER BY RANK() OVER (ORDER BY b) + ROW_NUMBER() OVER (ORDER BY g DESC) + CUME_DIST() OVER (ORDER BY a) + NTILE(2) OVER (ORDER BY b DESC), 1;", CPU: 3},
+		// the standard input can be read once: its first mention is inside an expression that every worker evaluates
+		{Name: "stdin-first-read-in-per-record-subquery", Loop: true, Files: files, Stdin: "k,v\ny,10\nx,20\nz,30\nw,40\n",
+			SQL: "SELECT a, (SELECT v FROM STDIN s WHERE s.k = t.g) FROM t; SELECT COUNT(*) FROM STDIN;", CPU: 3},
+		{Name: "stdin-first-read-in-exists", Loop: true, Files: files, Stdin: "k,v\ny,10\nx,20\nz,30\nw,40\n",
+			SQL: "SELECT a FROM t WHERE EXISTS (SELECT 1 FROM STDIN s WHERE s.k = t.g AND s.v > 10);", CPU: 3},
 		{Name: "user-aggregate-with-row-argument-over-partitions", Files: files,
 			SQL: "DECLARE wsum AGGREGATE (cur, @w, @c) AS BEGIN VAR @s := @c; VAR @v; WHILE @v IN cur DO @s := @s + @v * @w; END WHILE; RETURN @s; END; SELECT a, wsum(b, a, a * 100) OVER (PARTITION BY g) FROM t; SELECT g, wsum(b, 2, 0) FROM t GROUP BY g;", CPU: 3},
 		{Name: "user-function-in-where-and-select", Files: files,
@@ -143,6 +150,9 @@ func goxRunOnce(dir string, sc goxScenario, cpu int, controlled bool, prefix []i
 	env := drv.NewText(dir)
 	env.Tx.Flags.SetCPU(cpu)
 	env.Tx.Flags.SetQuiet(true)
+	if sc.Stdin != "" {
+		_ = env.Sess.SetStdin(io.NopCloser(strings.NewReader(sc.Stdin)))
+	}
 	var r drv.Result
 	var ex gox.Execution
 	body := func() { r = env.Exec(sc.SQL) }
